@@ -11,13 +11,16 @@ META = {
                   "re-insert, remove, clear, both parallel constructors, the or_insert map rebuild, patch-entry resolution) and states C08 "
                   "declaratively (Winner / PropRead / union); TLC checks Sorted, StableAmongEquals, MapIsWinner, ReadIsProp, ListIsUnion, "
                   "sequential = parallel construction on every chain of <= 3 entries without (thorough: <= 4 with) duplicate archives over 4 archives + a missing file, priorities {-1,0,5}; the three former deviations of the code are refuted on witness chains. "
+                  "PatchChainInd.tla states the chain order (Sorted, StableAmongEquals, ranks a permutation) as an INDUCTIVE invariant over the same actions with "
+                  "arbitrary integer priorities and archive ids, chains of <= 4 entries and histories of any length; Apalache discharges Init => IndInv, "
+                  "IndInv => WinnerIsFirst, refutes the tie-goes-to-the-newcomer deviation (quick) and discharges IndInv /\\ Next => IndInv' (thorough). "
                   "Ptch.tla is a reference semantics of PTCH/COPY/BSD0 (signed seek, strict sizes) model-checked against a closed form. "
                   "TLC then enumerates every transition (state x operation) of the chain model and patch plans (shape x mutation); the driver "
                   "replays them on a real wow_mpq::PatchChain over real .mpq files and on apply_patch; TLC validates every recorded answer.",
     "level_note": "Trusted: TLC; SHA-1/MD5 digests computed by the driver as opaque tokens; the driver's PTCH *encoder* (every applied file is "
                   "re-evaluated from its bytes by Ptch.tla). Histories are bounded (all transitions of the <= 2/3-entry model + random walks); "
                   "archives are V1..V4 (one each) with 4 KiB / 16 KiB sectors, listfile present; patch entries stored raw, single-unit compressed and sectored.",
-    "technique": "TLA+ state machine + reference semantics; TLC model checking, TLC-generated histories / patch plans, TLC trace validation",
+    "technique": "TLA+ state machine + reference semantics; TLC model checking, Apalache inductive invariant for the chain order, TLC-generated histories / patch plans, TLC trace validation",
     "design_ref": "DESIGN.md section 5, C08",
     "crates": ["c08"],
 }
@@ -85,6 +88,12 @@ def run(ctx, cases=None, plans=None):
     ctx.mc("MC_PatchChain", cfg="MC_PatchChain_deep" if ctx.thorough else "MC_PatchChain", timeout=1500)
     ctx.mc("MC_Ptch", timeout=600)
     ctx.mc("MC_Ptch", cfg="MC_Ptch_sat", timeout=600)
+    # (A') symbolic, unbounded in history length and priorities: the chain order as an inductive invariant (Apalache)
+    ctx.apalache("PatchChainInd", "IndInv", init="Init", length=0, cinit="ConstInit", timeout=600)
+    ctx.apalache("PatchChainInd", "WinnerIsFirst", init="IndInit", length=0, cinit="ConstInit", timeout=600)
+    ctx.apalache("PatchChainInd", "IndInv", init="IndInit", next_="NextDev", length=1, cinit="ConstInit", timeout=900, expect="cex")
+    if ctx.thorough:
+        ctx.apalache("PatchChainInd", "IndInv", init="IndInit", length=1, cinit="ConstInit", timeout=3600)
     if cases is None and plans is None:
         cases, ncases, plans, nplans = gen_cases(ctx)
     else:
